@@ -69,6 +69,13 @@ pub fn generate(g: &mut G, _index: u64) -> Scenario {
             handler_sleep: 0,
         }));
     }
+    let slow_restart = g.chance(1, 8);
+    if slow_restart {
+        spec.on_start.insert(0, if g.chance(1, 2) { Work::Sleep(g.range(3, 30)) } else { Work::Yield(g.range(1, 3) as u32) });
+        if g.chance(1, 2) {
+            spec.stopped_yields = g.range(1, 2) as u32;
+        }
+    }
     sc.actors.push(spec);
     let nclients = g.range(1, 4) as usize;
     sc.setup.push(Op::Spawn { spec: 0, slot: 0 });
@@ -102,6 +109,13 @@ pub fn generate(g: &mut G, _index: u64) -> Scenario {
                 ops.push(op);
             }
             g.maybe_yield(&mut ops);
+        }
+        if c == 0 && slow_restart {
+            // a restart with slow hooks somewhere in the middle: order, barriers and the
+            // at-most-once guarantee hold across it and while it is in progress
+            let lo = slots[c].any().len();
+            let at = g.range(lo as u64, ops.len() as u64) as usize;
+            ops.insert(at, if g.chance(2, 3) { Op::Restart { h: 8 } } else { Op::Send { h: 8, id: g.id(), work: vec![Work::CtxRestart] } });
         }
         if c == 0 && owning {
             match g.below(4) {
